@@ -1575,6 +1575,247 @@ def c14(tier, seed):
 
 
 # ---------------------------------------------------------------------------------------------
+# C16: delayed send / cancel / termination (Delay.tla, TraceC16.tla)
+# ---------------------------------------------------------------------------------------------
+C16_HALF_MS = 20
+# spellings of a delay: (attribute text, [mant, scale, unit]); kind "delay" | "expr" (delayexpr with a literal) | "var"
+def c16_spellings(ms):
+    out = [("delay", "%dms" % ms, [ms, 0, "ms"]), ("delay", "%d.0ms" % ms, [ms * 10, 1, "ms"]),
+           ("expr", "'%dms'" % ms, [ms, 0, "ms"]), ("var", "%dms" % ms, [ms, 0, "ms"])]
+    if ms % 10 == 0 and ms < 1000:
+        out += [("delay", "0.%02ds" % (ms // 10), [ms // 10, 2, "s"]), ("delay", ".%02ds" % (ms // 10), [ms // 10, 2, "s"]),
+                ("expr", "'0.%02ds'" % (ms // 10), [ms // 10, 2, "s"])]
+    if ms % 60 == 0:
+        out += [("delay", "0.%03dm" % (ms // 60), [ms // 60, 3, "m"])]
+    if ms % 1000 == 0:
+        out += [("delay", "%ds" % (ms // 1000), [ms // 1000, 0, "s"])]
+    return out
+
+
+def c16_doc(name, forms, cancel_ids):
+    """forms: list of dict(k, id, kind, text, peer)"""
+    hdr = '<scxml xmlns="http://www.w3.org/2005/07/scxml" version="1.0" datamodel="rfsm-expression" name="%s">' % name
+    dm = '<datamodel><data id="x" expr="0"/><data id="n" expr="0"/><data id="peer" expr="0"/>'
+    body = ""
+    for f in forms:
+        attrs = 'event="ev.%d"' % f["k"]
+        if f["id"]:
+            attrs += ' id="%s"' % f["id"]
+        if f["kind"] == "delay":
+            attrs += ' delay="%s"' % f["text"]
+        elif f["kind"] == "expr":
+            attrs += ' delayexpr="%s"' % f["text"]
+        else:
+            dm += '<data id="dl%d" expr="\'%s\'"/>' % (f["k"], f["text"])
+            attrs += ' delayexpr="dl%d"' % f["k"]
+        if f["peer"]:
+            attrs += " targetexpr=\"'#_scxml_' + peer\""
+        body += ('<transition event="send.%d"><assign location="n" expr="n + 1"/><script>mark(\'S0\', %d, n, x)</script>'
+                 '<send %s><param name="from" expr="\'%s\'"/><param name="k" expr="%d"/><param name="i" expr="n"/><param name="v" expr="x"/></send>'
+                 '<script>mark(\'S1\', %d, n)</script></transition>') % (f["k"], f["k"], attrs, name, f["k"], f["k"])
+    for cid in cancel_ids:
+        body += ('<transition event="cancel.%s"><script>mark(\'C0\', \'%s\')</script><cancel sendid="%s"/>'
+                 '<script>mark(\'C1\', \'%s\')</script></transition>') % (cid, cid, cid, cid)
+    dm += "</datamodel>"
+    return (hdr + dm + '<state id="s">'
+            '<transition event="init"><assign location="peer" expr="_event.data.peer"/></transition>'
+            + body +
+            '<transition event="change"><assign location="x" expr="1 - x"/><script>mark(\'CH\', x)</script></transition>'
+            '<transition event="quit" target="f"/>'
+            "<transition event=\"ev.*\"><script>mark('R', _event.data.from, _event.data.k, _event.data.i, _event.data.v)</script></transition>"
+            '</state><final id="f"/></scxml>')
+
+
+def c16_job(jid, cmds, rng, half_ms=C16_HALF_MS, tail_ms=None):
+    """cmds: [{op, s, id, d (half ticks), tgt, t (half ticks)}] -> scenario job + the send forms"""
+    forms = {}
+    flist = []
+    for c in cmds:
+        if c["op"] == "send":
+            key = (c["id"], c["d"], c["s"] != c["tgt"])
+            if key not in forms:
+                ms = c["d"] * half_ms
+                kind, text, spell = rng.choice(c16_spellings(ms))
+                forms[key] = {"k": len(flist) + 1, "id": c["id"], "kind": kind, "text": text, "peer": c["s"] != c["tgt"],
+                              "spell": spell, "ms": ms}
+                flist.append(forms[key])
+    cancel_ids = sorted({c["id"] for c in cmds if c["op"] == "cancel"})
+    sessions = [{"name": n, "xml": c16_doc(n, flist, cancel_ids)} for n in ("A", "B")]
+    steps = [{"start": "A"}, {"start": "B"}, {"settle": 20},
+             {"send": "A", "event": {"name": "init", "params": {"peer": "$sid:B"}}},
+             {"send": "B", "event": {"name": "init", "params": {"peer": "$sid:A"}}}, {"settle": 20}]
+    tprev = 0
+    for c in cmds:
+        if c["t"] > tprev:
+            steps.append({"sleep": (c["t"] - tprev) * half_ms})
+            tprev = c["t"]
+        else:
+            steps.append({"sleep_us": 1200})
+        if c["op"] == "send":
+            ev = "send.%d" % forms[(c["id"], c["d"], c["s"] != c["tgt"])]["k"]
+        elif c["op"] == "cancel":
+            ev = "cancel.%s" % c["id"]
+        else:
+            ev = c["op"]
+        steps.append({"send": c["s"], "event": ev})
+    maxd = max([c["d"] for c in cmds if c["op"] == "send"] or [0])
+    steps.append({"sleep": tail_ms if tail_ms is not None else maxd * half_ms + 420})
+    return {"id": jid, "sessions": sessions, "steps": steps, "timeout_ms": 60000}, flist
+
+
+def c16_extract(r, flist):
+    """recorded scenario -> facts for TraceC16.tla"""
+    byk = {f["k"]: f for f in flist}
+    logname = {idx: n for (n, idx) in [(x[0], x[1]) for x in r["names"]]}
+    sends, cancels, recvs, ends = [], [], [], []
+    inst_of = {}
+    for sl in r["sessions"]:
+        name = logname.get(sl["idx"])
+        if name is None:
+            continue
+        open_s, open_c = {}, {}
+        for x in sl["recs"]:
+            ts = x[-1]
+            if x[0] == "M":
+                tag, a = x[1], [tracelib.val_str(v) for v in x[2]]
+                if tag == "S0":
+                    open_s[(a[0], a[1])] = (ts, a[2])
+                elif tag == "S1":
+                    t0, val = open_s.pop((a[0], a[1]))
+                    f = byk[int(a[0])]
+                    inst = "%s.%s.%s" % (name, a[0], a[1])
+                    sends.append({"inst": inst, "sess": name, "id": f["id"], "mant": f["spell"][0], "scale": f["spell"][1],
+                                  "unit": f["spell"][2], "t0": t0, "t1": ts, "val": val,
+                                  "tgt": ("B" if name == "A" else "A") if f["peer"] else name})
+                elif tag == "C0":
+                    open_c[a[0]] = ts
+                elif tag == "C1":
+                    cancels.append({"sess": name, "id": a[0], "c0": open_c.pop(a[0]), "c1": ts})
+                elif tag == "R":
+                    recvs.append({"inst": "%s.%s.%s" % (a[0], a[1], a[2]), "sess": name, "t": ts, "val": a[3]})
+            elif x[0] == "END":
+                ends.append({"sess": name, "t": ts})
+        # a send whose second mark is missing did not complete (error in the element): not a delayed send
+    return {"sends": sends, "cancels": cancels, "recvs": recvs, "ends": ends, "horizon": r["horizon"]}
+
+
+C16_HAND = {
+    # name: (commands in half ticks of 20 ms, forced spellings or None)
+    "same-id-twice": [("send", "A", "x", 3, "A", 0), ("send", "A", "x", 5, "A", 0)],
+    "same-id-twice-short-second": [("send", "A", "x", 5, "A", 0), ("send", "A", "x", 1, "A", 0)],
+    "same-form-twice": [("send", "A", "x", 3, "A", 0), ("send", "A", "x", 3, "A", 0), ("send", "A", "", 3, "A", 0), ("send", "A", "", 3, "A", 0)],
+    "cancel-before-due": [("send", "A", "x", 5, "A", 0), ("send", "A", "y", 5, "A", 0), ("cancel", "A", "x", 0, "A", 2)],
+    "cancel-after-due": [("send", "A", "x", 1, "A", 0), ("cancel", "A", "x", 0, "A", 4)],
+    "cancel-foreign-session": [("send", "A", "x", 5, "A", 0), ("send", "B", "x", 5, "B", 0), ("cancel", "B", "x", 0, "B", 2)],
+    "cancel-peer-target": [("send", "A", "x", 5, "B", 0), ("cancel", "B", "x", 0, "B", 2), ("send", "A", "y", 5, "B", 2), ("cancel", "A", "y", 0, "A", 4)],
+    "change-after-send": [("send", "A", "", 3, "A", 0), ("change", "A", "", 0, "A", 0), ("send", "A", "", 3, "B", 0), ("change", "A", "", 0, "A", 2)],
+    "quit-with-pending-to-peer": [("send", "A", "", 7, "B", 0), ("send", "A", "x", 1, "B", 0), ("quit", "A", "", 0, "A", 4)],
+    "quit-receiver": [("send", "A", "", 5, "B", 0), ("quit", "B", "", 0, "B", 2), ("send", "A", "", 1, "A", 2)],
+    "long-then-short": [("send", "A", "", 7, "B", 0), ("send", "A", "", 3, "B", 0), ("send", "A", "", 1, "B", 0), ("send", "A", "", 5, "B", 0)],
+    "resend-after-cancel": [("send", "A", "x", 5, "A", 0), ("cancel", "A", "x", 0, "A", 2), ("send", "A", "x", 3, "A", 2)],
+}
+
+
+@check("C16")
+def c16(tier, seed):
+    t0 = time.time()
+    wd = vlib.workdir("C16")
+    V = vlib.Verdicts("C16")
+    vlib.build_harness()
+    rng = random.Random(seed)
+    mc = vlib.run_tlc("Delay", "Delay.cfg", wd, timeout=900, workers=12)
+    mc["text"] = ""
+    nsim = 40 if tier == "quick" else 400
+    sim = vlib.run_tlc("Delay", "DelaySim.cfg", wd, workers=1, timeout=600, simulate=(nsim, 40, seed + 1))
+    behaviours = []
+    seen = set()
+    for t in vlib.tlc_tuples(sim["text"], "REPLAY"):
+        v = vlib.parse_tla_value(t)
+        if v[1] in seen:
+            continue
+        seen.add(v[1])
+        behaviours.append(json.loads(v[1]))
+    sim["text"] = ""
+    if not behaviours:
+        raise ToolError("C16: TLC simulation produced no behaviour")
+    jobs, meta = [], {}
+    reps = 2 if tier == "quick" else 6
+    for name, cs in C16_HAND.items():
+        cmds = [dict(op=c[0], s=c[1], id=c[2], d=c[3], tgt=c[4], t=c[5]) for c in cs]
+        for rep in range(reps):
+            jid = len(jobs) + 1
+            job, fl = c16_job(jid, cmds, rng)
+            jobs.append(job)
+            meta[jid] = ("hand:" + name, fl, cmds)
+    # units: long delays in other spellings (run concurrently with everything else)
+    for (nm, ms) in [("units-1s", 1000), ("units-120ms", 120), ("units-300ms", 300)]:
+        for sp in c16_spellings(ms):
+            jid = len(jobs) + 1
+            cmds = [dict(op="send", s="A", id="", d=ms // C16_HALF_MS, tgt="A", t=0)]
+            job, fl = c16_job(jid, cmds, rng)
+            fl[0].update(kind=sp[0], text=sp[1], spell=sp[2])
+            job["sessions"] = [{"name": n, "xml": c16_doc(n, fl, [])} for n in ("A", "B")]
+            jobs.append(job)
+            meta[jid] = ("hand:%s:%s" % (nm, sp[1]), fl, cmds)
+    for b in behaviours:
+        jid = len(jobs) + 1
+        job, fl = c16_job(jid, b, rng)
+        jobs.append(job)
+        meta[jid] = ("tlc", fl, b)
+    res = run_scen_jobs(jobs, wd, threads=6)
+    scens = []
+    for j in jobs:
+        r = res[j["id"]]
+        if r.get("errors"):
+            raise ToolError("C16 scenario %s: %s" % (meta[j["id"]][0], r["errors"]))
+        sc = c16_extract(r, meta[j["id"]][1])
+        sc["jid"] = j["id"]
+        sc["bad"] = bool(r.get("panics") or r.get("other_panics") or r.get("stalls"))
+        scens.append(sc)
+    with open(os.path.join(wd, "traces.ndjson"), "w") as f:
+        for sc in scens:
+            f.write(json.dumps({k2: sc[k2] for k2 in ("sends", "cancels", "recvs", "ends", "horizon")}) + "\n")
+    tv = vlib.run_tlc("TraceC16", "TraceC16.cfg", wd, env={"TRACES": "traces.ndjson"}, timeout=1500)
+    stats = [0, 0, 0, 0]
+    acc = 0
+    for t in vlib.tlc_tuples(tv["text"], "ACCEPT"):
+        v = vlib.parse_tla_value(t)
+        acc += 1
+        for q in range(4):
+            stats[q] += v[2][q]
+    for t in vlib.tlc_tuples(tv["text"], "REJECT"):
+        v = vlib.parse_tla_value(t)
+        sc = scens[v[1] - 1]
+        name, fl, cmds = meta[sc["jid"]]
+        V.report("%s:%s" % (v[2], name if name.startswith("hand:") else "tlc-behaviour"), "%s in scenario %s" % (v[2], name),
+                 {"class": v[2], "scenario": name, "commands": cmds, "forms": fl,
+                  "facts": {k2: sc[k2] for k2 in ("sends", "cancels", "recvs", "ends", "horizon")}})
+    tv["text"] = ""
+    for sc in scens:
+        if sc["bad"]:
+            r = res[sc["jid"]]
+            V.report("session-failure:%s" % meta[sc["jid"]][0], "panic or stall in scenario %s" % meta[sc["jid"]][0],
+                     {"result": {k2: r.get(k2) for k2 in ("panics", "other_panics", "stalls")}, "commands": meta[sc["jid"]][2]})
+    if acc == 0 and not V.violations:
+        raise ToolError("C16: nothing accepted")
+    rc = V.finish()
+    cov = {"states": mc["distinct"] + tv["distinct"], "transitions": mc["states"] + tv["states"], "traces_validated_against_impl": acc,
+           "samples": [{"scenario": meta[scens[0]["jid"]][0], "commands": meta[scens[0]["jid"]][2], "sends": scens[0]["sends"][:3],
+                        "recvs": scens[0]["recvs"][:3]}],
+           "evaluations": len(scens), "distinct_nontrivial": stats[0],
+           "rule": "Delay.tla model-checked (2 sessions, ids x/none, delays 1 and 3 half ticks, 2 sends, 3 commands: NoEarly, AtMostOnce, "
+                   "ValueAtExec, DueOrder, CancelPrevents, TerminationDiscards, CancelIsolated, liveness ExactlyOnce); %d behaviours "
+                   "simulated by TLC from the same spec (5 sends / 9 commands) + %d directed scenarios replayed in the interpreter "
+                   "with randomly chosen spellings of each delay; TraceC16.tla judged every send from the measured intervals: "
+                   "%d delivered, %d certainly cancelled, %d certainly discarded by termination, %d had to be delivered"
+                   % (len(behaviours), len(scens) - len(behaviours), stats[0], stats[1], stats[2], stats[3])}
+    vlib.write_evidence("C16", tier, seed, "model_checking", cov, time.time() - t0, len(V.violations),
+                        ["a timer later than 150 ms counts as a lost event; cancellations / terminations within the measured "
+                         "uncertainty of the due time are not judged", "timer and session threads are scheduled by the OS, not enumerated"])
+    return rc
+
+
+# ---------------------------------------------------------------------------------------------
 # C10 / C11: Expr.tla as generator + oracle, the engine evaluated in `vh expr`
 # ---------------------------------------------------------------------------------------------
 OPERANDS = ["0", "1", "2", "3", "7", "10", "-1", "-4", "2.5", "0.5", "1.0", "-1.5", "'a'", "'b'", "'ab'", "''", "true",
